@@ -165,7 +165,52 @@ static void run_ps(const Case& c) {
     }
 }
 
+// ef <id> <n> <nb> <nmax> <spacing> ; off = bucket numbers ; parts = impedance (re,im)*nmax ;
+// extra = f_rev revpart Ib E0 sigma_delta dt fcut ; data = profile sets (k-th set: nb*n floats) ;
+// ops = P<k> (load profile set k), w (wakePotential), p (padBunchProfiles), c (updateCSR(fcut)), C (updateCSR(0))
+static void run_ef(const Case& c) {
+    uint32_t n = std::stoul(c.head[2]), nb = std::stoul(c.head[3]);
+    size_t nmax = std::stoul(c.head[4]); uint32_t spacing = std::stoul(c.head[5]);
+    PhaseSpace::resetSize(n, nb);
+    auto ps = mkps(n, nb, nullptr);
+    std::vector<impedance_t> z; for (auto p : c.parts) z.push_back(impedance_t(p.first, p.second));
+    z.resize(nmax, impedance_t(0, 0));
+    const auto& e = c.extra;
+    auto imp = std::make_shared<Impedance>(z, 1e12f);
+    std::vector<uint32_t> buckets; for (float f : c.off) buckets.push_back(static_cast<uint32_t>(f));
+    std::cout << "case " << c.id << '\n';
+    ElectricField ef(ps, imp, buckets, spacing, nullptr, e[0], e[1], e[2], e[3], e[4], e[5]);
+    std::cout << "vals " << hx(ef.getWakeScaling()) << ' ' << hx(static_cast<float>(ef.volts)) << ' '
+              << hx(static_cast<float>(ef.factor4WattPerHertz)) << ' ' << hx(static_cast<float>(ef.factor4Watts)) << '\n';
+    for (const auto& op : c.words) {
+        if (op[0] == 'P') {
+            size_t k = std::stoul(op.substr(1));
+            for (uint32_t b = 0; b < nb; b++) {
+                boost::multi_array<projection_t, 1> pr(boost::extents[n]);
+                for (uint32_t x = 0; x < n; x++) pr[x] = c.data[k * nb * n + b * n + x];
+                ps->setProjection(0, b, pr);
+            }
+            continue;
+        }
+        if (op == "w") { ef.wakePotential(); }
+        else if (op == "p") { ef.padBunchProfiles(); }
+        else if (op == "c") { ef.updateCSR(e[6]); }
+        else if (op == "C") { ef.updateCSR(0); }
+        std::cout << "ops " << op << '\n';
+        print_data("pad", ef.getPaddedBunchProfiles(), nmax);
+        if (op == "w") {
+            print_data("wake", ef.getWakePotentials().data(), static_cast<size_t>(nb) * n);
+            print_data("wpad", ef.getPaddedWakePotential(), nmax);
+        }
+        if (op == "c" || op == "C") {
+            print_data("spec", ef.getCSRSpectrum(), nb * nmax);
+            print_data("pow", ef.getCSRPower(), nb);
+        }
+    }
+}
+
 static bool dispatch_more(const Case& c) {
+    if (c.kind == "ef") { run_ef(c); return true; }
     if (c.kind == "ps") { run_ps(c); return true; }
     if (c.kind == "coeffsweep") { run_coeffsweep(c); return true; }
     if (c.kind == "rf") { run_rf(c); return true; }
